@@ -33,6 +33,19 @@ def sh(cmd, cwd=None, env=None, timeout=None):
         os.makedirs(td, exist_ok=True)
         lock = open(td.rstrip('/') + '.lock', 'w')
         fcntl.flock(lock, fcntl.LOCK_EX)
+        # cargo decides freshness by source mtimes against the last build in this target directory - which may have been another
+        # check's build of ANOTHER scratch copy, made after this copy was written ("Finished in 0.08s", then the wrong binary runs).
+        # With the lock held, the sources of this copy are stamped now, so that this invocation rebuilds from them.
+        srcdir = os.path.join(cwd or '.', 'src')
+        if os.path.isdir(srcdir):
+            now = time.time()
+            for root, _dirs, files in os.walk(srcdir):
+                for fn in files:
+                    if fn.endswith('.rs'):
+                        try:
+                            os.utime(os.path.join(root, fn), (now, now))
+                        except OSError:
+                            pass
     try:
         r = subprocess.run(cmd, cwd=cwd, env=e, stdout=subprocess.PIPE, stderr=subprocess.STDOUT, text=True,
                            timeout=timeout, shell=isinstance(cmd, str))
@@ -332,6 +345,8 @@ def find_counterexample(prop, violation, cfg, work, ran=None):
                                 finder_bound=f.get('bound'))
                 if ran is not None and 'test result: ok. 1 passed' in rep['tail']:
                     ran.append(dict(name=f['replay'], kind='native', bound=f.get('bound'), covers=covers))
+                elif ran is not None:
+                    ran.append(dict(name=f['replay'], kind='native', bound=f.get('bound'), covers=False, did_not_run=rep['tail'][-600:]))
                 continue    # nothing found: a later finder may match the same function
             r = find_and_replay(scratch, f, violation.get('where'))
             if r:
